@@ -293,7 +293,9 @@ func Run(ctx *core.Ctx) {
 		"plus interrupted I/O on tracked connections (Write / io.Copy=ReadFrom of 16 MiB cut by a write deadline against a peer that does not read or by the peer's reset; Read / io.Copy out cut by a " +
 		"read deadline or the peer's reset) on every stacking and on dialled connections; plus the real proxy with TrackTraffic, a WriteTimeout and tracked dials: 16 MiB downloads (Content-Length and chunked) " +
 		"cut by the write timeout against a client that does not read or by the client's reset, 8 MiB uploads and tunnels cut by the target's / client's reset, PROXY-protocol clients that send a good header, " +
-		"none, garbage, or reset after it; non-trivial = anything but a single plain request; distinct = distinct case description")
+		"none, garbage, or reset after it; plus accepted connections of the real proxy that end BEFORE their first request on every listener stacking (plain, HTTPS, PROXY protocol, both, with and without rate limit and traffic tracking), 3-10 clients at once interleaved with good exchanges: " +
+		"closed or reset right after the accept / in the middle of or after the PROXY header / in the middle of or after the TLS handshake, silent until the PROXY header, TLS handshake or idle timer fires, a PROXY header that is none, TLS handshakes that fail every way (plain-text request on the TLS port, random bytes, a malformed or truncated ClientHello, a ClientHello then FIN / RST, " +
+		"no common protocol version, no common cipher suite, the client rejecting the certificate with an alert) — the client keeps its end open and must see the proxy close; non-trivial = anything but a single plain request; distinct = distinct case description")
 	ctx.Assume("sync.Once.Do is modelled as an atomic check-and-run; the Go scheduler, TCP and the Prometheus client are not modelled")
 	ctx.Assume("real schedules are sampled: each round is one interleaving chosen by the scheduler; gauges are observed at gather points only (quiescent point = registry equal to the model's counters and connection gauges 0 on three consecutive polls, waited for at most 12 s)")
 	ctx.Assume("bytes on the wire are counted at the harness's end of each connection: equal to the observer once that end has read to the FIN, a lower bound for the observer's Tx (an upper bound for its Rx) when the connection ended in a reset (bytes the kernel had accepted may be lost); on connections without TLS above the tracker the observer is also compared exactly with the n the calls returned")
@@ -365,6 +367,14 @@ func Run(ctx *core.Ctx) {
 			ctx.Sample(c)
 		}
 		extras = append(extras, func() { runPx(ctx, c) })
+	}
+	// accepted connections of the real proxy that end before their first request (pre.go)
+	for i, nPre := 0, ctx.N(45, 400); i < nPre; i++ {
+		c := genPre(ctx.Rng.Sub())
+		if i == 0 {
+			ctx.Sample(c)
+		}
+		extras = append(extras, func() { runPre(ctx, c) })
 	}
 	core.Shuffle(ctx.Rng.Sub(), extras)
 	xi := 0
@@ -474,6 +484,12 @@ func replayWith(ctx *core.Ctx, pool *worldPool, raw json.RawMessage) {
 			core.Fatalf("C13: bad proxy-cut case: %v", err)
 		}
 		runPx(ctx, &c)
+	case "pre-request":
+		var c preCase
+		if err := json.Unmarshal(raw, &c); err != nil {
+			core.Fatalf("C13: bad pre-request case: %v", err)
+		}
+		runPre(ctx, &c)
 	case "listener":
 		var lc listenerCase
 		if err := json.Unmarshal(raw, &lc); err != nil {
